@@ -2527,6 +2527,18 @@ impl<'a> Model<'a> {
                 }
             }
         }
+        // ... nor may the anchor cell itself: nothing is changed before this is known
+        match self.get_cell_structure(sheet, row, column)? {
+            CellStructure::SpillArray { .. } => {
+                return Err("Cannot write in a cell that is part of an array formula".to_string());
+            }
+            CellStructure::ArrayFormula {
+                range: (other_width, other_height),
+            } if other_width > 1 || other_height > 1 => {
+                return Err("Cannot write in a cell that is part of an array formula".to_string());
+            }
+            _ => {}
+        }
         // A dynamic array under the block is dissolved, as if its cells had been typed
         // into: its anchor must not keep claiming (nor its spill cells keep pointing at)
         // cells that now belong to this array
